@@ -2,11 +2,14 @@
    bool/option/unit/list/prod/sumbool map to OCaml's own types; Z, N, positive and nat stay
    Coq's inductive types.  No Extract Constant / Extract Inductive directive of our own. *)
 From Coq Require Import Extraction ExtrOcamlBasic.
-From Suiron Require Import Model.Str Model.Float Model.Term Model.Subst Model.Compare Model.Arith.
+From Suiron Require Import Model.Str Model.Float Model.Term Model.Subst Model.Compare Model.Arith Model.Show Model.Lists Model.Unify Model.Builtins Model.Rename.
 Extraction Language OCaml.
 Extraction "model.ml"
   Z.add Z.mul Z.opp Z.of_N N.add N.mul N.of_nat Nat.add Z.compare N.compare
   show_Z show_N f64_of_bits f64_canon_bits show_f64
   term_eqb goal_eqb
   ss_get ss_set get_ground_term get_constant get_list get_complex is_ground_variable
-  bip_compare evaluate.
+  bip_compare evaluate
+  show_term term_key make_linked_list make_list_of_terms link_front count_terms get_terms
+  unify evaluate_join eval_function replace_variables filter run_bip format_for_print_pred format_slist
+  rename_term rename_terms rename_goal rename_rule add_rules get_rule make_query kb_get.
